@@ -151,7 +151,8 @@ func c03Eval(w *Worker, c *GCase) {
 	for si, cells := range t.Cells {
 		for x, cell := range cells {
 			if len(cell.Cands) > 1 {
-				if !cell.Judged {
+				if !cell.Judged || cell.Multi {
+					// cells with more than two candidates: which pairs yaccgo compares (and warns about) is not specified
 					judgable = false
 				}
 				if cell.Warn {
